@@ -2,7 +2,7 @@
 # MANIFEST.setup_cmd: build the framework from files on disk only and warm the Go build cache.
 set -u
 export GOFLAGS=-mod=mod GOPROXY=off GOSUMDB=off GOTOOLCHAIN=local
-V=/verif
+V=$(cd "$(dirname "$0")" && pwd)
 mkdir -p $V/.work $V/evidence $V/replays
 cd $V/harness || exit 2
 W=$V/.work/setup.$$
